@@ -688,6 +688,22 @@ class Statics:
             self.ob(pid, q, "network-calls-inside-thread-try", bool(gets) and inside, "a requests call outside the try block of the checker thread", kind="thread")
 
 
+    def c06(self):
+        pid = "C06"
+        q = "ascmhl.utils.datetime_now_filename_string"
+        fi = self.repo.funcs.get(q)
+        if fi is None:
+            self.ob(pid, q, "exists", False, "not found", unknown=True, kind="ground")
+            return
+        src = ast.unparse(fi.node)
+        calls = [n for n in ast.walk(fi.node) if isinstance(n, ast.Call) and ast.unparse(n.func).endswith("strftime")]
+        ok = len(calls) == 1 and len(calls[0].args) == 2 and ast.unparse(calls[0].args[0]) == "datetime.datetime.now(datetime.timezone.utc)" \
+            and isinstance(calls[0].args[1], ast.Constant) and calls[0].args[1].value == "%Y-%m-%d_%H%M%SZ"
+        self.ob(pid, q, "manifest-name-carries-the-UTC-clock", ok,
+                f"the time in the manifest name is not strftime(now(timezone.utc), '%Y-%m-%d_%H%M%SZ'): {src[-160:]}", fi.node.lineno, kind="ground")
+        self.obs[-1]["props"] = ["C06", "C16"]
+
+
 def run(pid, tier, repo_root=None):
     from . import REPO
 
@@ -707,6 +723,9 @@ def run(pid, tier, repo_root=None):
     elif pid in ("C06", "C08", "C03"):
         s.c05()
         s.c15()
+        s.c06()
+    elif pid == "C16":
+        s.c06()
     return [o for o in s.obs if pid in o["props"]]
 
 
